@@ -271,7 +271,8 @@ Section WriterProofs.
   Proof.
     intros b (Hne & Hl). cbn zeta. unfold fbytes, wframe. cbn [fst snd].
     pose proof (enc_bound b Hl) as Hc. unfold MAX_BUF_SIZE, MAX_COMPRESSED_SIZE in *.
-    rewrite frame_bytes_lenN. repeat split.
+    rewrite frame_bytes_lenN.
+    split; [reflexivity|]. split; [|split; [|split; [|split; [|split]]]].
     - lia.
     - rewrite bsize_of_frame by lia. apply frame_bytes_lenN.
     - apply frame_bytes_header.
@@ -292,6 +293,40 @@ Section WriterProofs.
     repeat split; [lia|lia|].
     unfold enc. destruct (lenN (deflate lvl b) <=? MAX_COMPRESSED_SIZE); apply H_rt;
       unfold BGZF_MAX_ISIZE; lia.
+  Qed.
+
+  (* every clause of "well-formed BGZF" for one emitted frame *)
+  Definition frame_wf (b : list N) : Prop :=
+    let f := fbytes (wframe b) in
+    b <> [] /\ lenN b <= MAX_BUF_SIZE /\
+    lenN f = 26 + lenN (enc b) /\ lenN f <= 65536 /\
+    bsize_of f + 1 = lenN f /\
+    firstn 16 f = header_prefix /\
+    parse_frame f = Ok (lenN f, enc b, crc32 b, lenN b) /\
+    inflate (enc b) (lenN b) = Some b.
+
+  Lemma good_block_frame_wf : forall b, good_block b -> frame_wf b.
+  Proof.
+    intros b Hg. destruct (wframe_wellformed b Hg) as (H1 & H2 & H3 & H4 & H5 & H6 & H7).
+    destruct (good_wframe b Hg) as (_ & _ & Hinf). cbn [wframe fst snd] in Hinf.
+    destruct Hg as (Hne & Hl). unfold frame_wf. cbn zeta. repeat split; assumption.
+  Qed.
+
+  Theorem writer_wellformed_full :
+    forall ops e,
+      let o := run_script deflate lvl ops e in
+      exists blocks,
+        o_sink o = frames_bytes (map wframe blocks) ++ concat (repeat eof_block (n_eof e)) /\
+        Forall frame_wf blocks /\
+        concat blocks = accepted ops (o_results o) /\
+        o_end o = Ok tt /\
+        Forall (fun r => is_ok (fst r)) (o_results o) /\ length (o_results o) = length ops.
+  Proof.
+    intros ops e. cbn zeta.
+    destruct (writer_wellformed ops e) as (blocks & Hs & Hb & Hacc & Hend & Hall & Hlen).
+    exists blocks. split; [exact Hs|]. split.
+    - eapply Forall_impl; [|exact Hb]. exact good_block_frame_wf.
+    - repeat split; assumption.
   Qed.
 
   Lemma eofs_as_frames :
